@@ -133,11 +133,12 @@ Inductive seen (A : Type) := Skip | Got (a : A).
 Arguments Skip {A}.
 Arguments Got {A} a.
 
-(** ** Split-based parsing of binary height keys (the code before the D7 repair;
-    kept for Refuted/C19_split_height_refuted.v) *)
+(** ** Split-based parsing of binary height keys: the code BEFORE the repair of
+    defect D7 (/repo commit f424384).  Kept, suffixed [_old], for
+    Refuted/C19_split_height_refuted.v. *)
 
 (** client keeper [IterateConsensusStates] on a full key of the xibc store *)
-Definition iter_consensus_states_split (k : bytes) : outcome (seen (bytes * height)) :=
+Definition iter_consensus_states_old (k : bytes) : outcome (seen (bytes * height)) :=
   let ks := split_sep k in
   if negb (Nat.eqb (length ks) 4) || negb (bytes_eqb (nth 2 ks []) host_KeyConsensusStatePrefix) then Ok Skip
   else
@@ -149,7 +150,7 @@ Definition iter_consensus_states_split (k : bytes) : outcome (seen (bytes * heig
       Ok (Got (nth 1 ks [], {| rev_number := r; rev_height := h |})).
 
 (** tendermint [IterateProcessedTime] on a key of the client store: a filter *)
-Definition iter_processed_time_split (k : bytes) : seen bytes :=
+Definition iter_processed_time_old (k : bytes) : seen bytes :=
   let ks := split_sep k in
   if negb (Nat.eqb (length ks) 3) || negb (bytes_eqb (nth 2 ks []) (B "processedTime")) then Skip else Got k.
 
@@ -164,19 +165,78 @@ Definition evm_height_from_key (k : bytes) : outcome height :=
   Ok {| rev_number := r; rev_height := h |}.
 
 (** BSC / ETH [IterateConsensusStateAscending] on a key of the client store *)
-Definition iter_evm_consensus_split (k : bytes) : outcome (seen height) :=
+Definition iter_evm_consensus_old (k : bytes) : outcome (seen height) :=
   let ks := split_sep k in
   if negb (Nat.eqb (length ks) 2) then Ok Skip
   else h <- evm_height_from_key k ;; Ok (Got h).
 
-(** ** Parsers that do not split binary data *)
-
-(** client keeper [IterateClients] on a full key: last field must be
+(** client keeper [IterateClients] before the repair: last field must be
     "clientState", the chain name is field 1 *)
-Definition iter_clients_parse (k : bytes) : outcome (seen bytes) :=
+Definition iter_clients_old (k : bytes) : outcome (seen bytes) :=
   let ks := split_sep k in
   if negb (bytes_eqb (last ks []) host_KeyClientState) then Ok Skip
   else match nth_error ks 1 with Some n => Ok (Got n) | None => Panic end.
+
+(** ** The parsers of /repo HEAD (fixed offsets, host/parse.go) *)
+
+(** [bytes.IndexByte(rest, '/')]: the part before and after the first separator *)
+Fixpoint cut_sep (l : bytes) : option (bytes * bytes) :=
+  match l with
+  | [] => None
+  | c :: r => if is_sep c then Some ([], r)
+              else match cut_sep r with Some (a, b) => Some (c :: a, b) | None => None end
+  end.
+
+(** [host.ParseClientKey]: "clients/" ++ chainName ++ "/" ++ path *)
+Definition parse_client_key (k : bytes) : option (bytes * bytes) :=
+  match strip (host_KeyClientStorePrefix ++ [sep]) k with
+  | Some rest => cut_sep rest
+  | None => None
+  end.
+
+(** [host.ParseConsensusStateKey]: "consensusStates/" ++ exactly 16 bytes *)
+Definition parse_consensus_state_key (k : bytes) : option height :=
+  match strip (host_KeyConsensusStatePrefix ++ [sep]) k with
+  | Some hb =>
+      if Nat.eqb (length hb) 16
+      then Some {| rev_number := be_val (firstn 8 hb); rev_height := be_val (firstn 8 (skipn 8 hb)) |}
+      else None
+  | None => None
+  end.
+
+(** client keeper [IterateConsensusStates] on a full key of the xibc store *)
+Definition iter_consensus_states (k : bytes) : seen (bytes * height) :=
+  match parse_client_key k with
+  | Some (name, path) => match parse_consensus_state_key path with Some h => Got (name, h) | None => Skip end
+  | None => Skip
+  end.
+
+(** client keeper [IterateClients] on a full key *)
+Definition iter_clients (k : bytes) : seen bytes :=
+  match parse_client_key k with
+  | Some (name, path) => if bytes_eqb path host_KeyClientState then Got name else Skip
+  | None => Skip
+  end.
+
+Fixpoint has_suffix (sfx l : bytes) : bool :=
+  bytes_eqb sfx l || match l with [] => false | _ :: r => has_suffix sfx r end.
+
+(** tendermint [IterateProcessedTime] on a key of the client store: not a
+    consensus state key, and ends with "/processedTime" *)
+Definition iter_processed_time (k : bytes) : seen bytes :=
+  match parse_consensus_state_key k with
+  | Some _ => Skip
+  | None => if has_suffix tm_KeyProcessedTime k then Got k else Skip
+  end.
+
+(** BSC / ETH [IterateConsensusStateAscending] on a key of the client store *)
+Definition iter_evm_consensus (k : bytes) : outcome (seen height) :=
+  match parse_consensus_state_key k with
+  | Some _ => h <- evm_height_from_key k ;; Ok (Got h)
+  | None => Ok Skip
+  end.
+
+(** ** Parsers that never split binary data (unchanged by the repair) *)
 
 (** tendermint [GetHeightFromIterationKey] (fixed offset after "iterateConsensusStates") *)
 Definition tm_height_from_iteration_key (k : bytes) : outcome height :=
